@@ -382,7 +382,7 @@ func (w *sortedWriter) handleRequests() {
 			if e.skipVlogAndSetThreshold(w.db.valueThreshold()) {
 				vs = y.ValueStruct{
 					Value:     e.Value,
-					Meta:      e.meta,
+					Meta:      e.meta &^ bitValuePointer, // Inline value (see DB.writeToLSM).
 					UserMeta:  e.UserMeta,
 					ExpiresAt: e.ExpiresAt,
 				}
